@@ -716,6 +716,13 @@ class Driver:
             if type(tok) is not Token or tok.world is not w or tok not in w.pending:
                 w.bad("c17:foreign-suspension")
                 send = None
+                self.nforeign = getattr(self, "nforeign", 0) + 1
+                if self.nforeign > 8:  # something spins on suspensions nobody handed out
+                    try:
+                        it.close()
+                    except BaseException:
+                        pass
+                    raise Suspended()
                 continue
             w.pending.remove(tok)
             if tok.kind == "block" and tok.lock is not None and tok.lock.held:
